@@ -395,6 +395,34 @@ func TestC15_Real(t *testing.T) {
 			}
 		}
 	}
+	// the command-line paths on a handful of cut points (each command reads the file its own way)
+	if cliPath() != "" {
+		n := len(img.data)
+		probes := []int{n - 1, n - 1000, img.vkEnd + (n-img.vkEnd)/2, img.vkEnd + 1, img.pkEnd + 10, 8 + (img.pkEnd-8)/2, 4}
+		cmds := []string{"cli-convert-to-raw", "cli-export-vk", "cli-verify", "cli-prove"}
+		for pi, off := range probes {
+			if off <= 0 || off >= n {
+				continue
+			}
+			for ci, cmdName := range cmds {
+				if !Thorough() && (pi+ci)%2 == 1 {
+					continue // quick: half of the grid, every command and every cut point still occur
+				}
+				c := c15Case{Kind: "real", Shape: shape, Format: format, Via: cmdName, Offset: off, Len: n, Mode: d.mode}
+				sig, msg := checkPrefix(img, off, cmdName)
+				if !report(c, fmt.Sprintf("real/%s/%s/%s/cli-grid", format, cmdName, img.section(off)), sig, msg) {
+					return
+				}
+			}
+		}
+		for _, off := range []int{n - 1000, img.pkEnd + 10} {
+			c := c15Case{Kind: "real", Shape: shape, Format: format, Via: "cli-start", Offset: off, Len: n, Mode: d.mode}
+			sig, msg := checkPrefix(img, off, "cli-start")
+			if !report(c, fmt.Sprintf("real/%s/cli-start/%s/cli-grid", format, img.section(off)), sig, msg) {
+				return
+			}
+		}
+	}
 	cliCmds := []string{"cli-prove", "cli-verify", "cli-export-vk", "cli-convert-to-raw", "cli-start"}
 	rapid.Check(t, func(rt *rapid.T) {
 		sec := pick(rt, "section", "proving-key", "proving-key", "verifying-key", "constraint-system", "constraint-system")
